@@ -456,6 +456,32 @@ def run_fix_laws(sp, enc, col, emit, rnd, model, max_vars=6):
         after = (dict(P.gp.fixed_values), [d.name for d in P.gp.des_vars])
         if before != after:
             emit('rejected_fix_changed_state', {'var': dv.name, 'before': before, 'after': after, 'enc': enc})
+        # the same rejections for a variable that is already fixed: the earlier fix must survive them
+        if not isinstance(dv.node, an.ConnectionChoiceNode):
+            good = rnd.randrange(dv.n_opts) if dv.is_discrete else dv.bounds[0]
+            try:
+                P.gp.fix_des_var(P.all_dvs[i], good)
+            except Exception:  # noqa  (valid fixes are judged by the laws above)
+                continue
+            col.count('monitor_rejection_evaluations')
+            before = (dict(P.gp.fixed_values), [d.name for d in P.gp.des_vars])
+            for bad in ([-1, dv.n_opts] if dv.is_discrete else [dv.bounds[1] + .5]):
+                try:
+                    P.gp.fix_des_var(P.all_dvs[i], bad)
+                    emit('fix_out_of_range_accepted', {'var': dv.name, 'value': bad, 'enc': enc, 'already_fixed': good})
+                except ValueError:
+                    pass
+                except Exception as e:  # noqa
+                    emit('fix_exception', {'stage': 'reject_range_fixed', 'exc': D.exc_info(e), 'enc': enc},
+                         where={'exc': type(e).__name__, 'stage': 'reject_range'})
+            after = (dict(P.gp.fixed_values), [d.name for d in P.gp.des_vars])
+            if before != after:
+                emit('rejected_fix_changed_state', {'var': dv.name, 'before': before, 'after': after, 'enc': enc,
+                                                    'already_fixed': good})
+            try:
+                P.gp.free_des_var(P.all_dvs[i])
+            except Exception:  # noqa
+                pass
     return did
 
 
